@@ -74,8 +74,29 @@ func round9Harmless() []mutant {
 	return out
 }
 
+// round12Harmless: the correct feature additions of round 12 (refactors/r12/<property>/{a,b,c}.diff: a fast
+// path for a special input, a hardening / bug-fix style change, a small feature).
+func round12Harmless() []mutant {
+	var out []mutant
+	ms, _ := filepath.Glob(filepath.Join(verifDir, "refactors", "r12", "*", "?.diff"))
+	sort.Strings(ms)
+	for _, m := range ms {
+		prop := filepath.Base(filepath.Dir(m))
+		rel, err := filepath.Rel(verifDir, m)
+		if err != nil {
+			continue
+		}
+		id := "h-r12-" + prop + "-" + strings.TrimSuffix(filepath.Base(m), ".diff")
+		if b, err := os.ReadFile(m); err == nil && (strings.Contains(string(b), "faiss_vector") || strings.Contains(string(b), "section_faiss")) {
+			out = append(out, mutant{Harmless: true, ID: id + "-vectors", Patch: rel, Vectors: true})
+		}
+		out = append(out, mutant{Harmless: true, ID: id, Patch: rel})
+	}
+	return out
+}
+
 func harmlessTable() []mutant {
-	return append(append(append(fixedHarmless(), smallHarmless()...), round8Harmless()...), round9Harmless()...)
+	return append(append(append(append(fixedHarmless(), smallHarmless()...), round8Harmless()...), round9Harmless()...), round12Harmless()...)
 }
 
 func fixedHarmless() []mutant {
